@@ -384,6 +384,62 @@ func TestVerifC04(t *testing.T) {
 	defer rep.Finish()
 	c04Run(t, rep, "ca_rsa2048", false)
 	c04Run(t, rep, "ca_ec256", true)
+	c04RetiredKeys(rep)
 	rep.Floor("honoured_genuine", 16)
+	rep.Floor("retired_key_deployments_probed", 3)
 	rep.Floor("rejections", 400)
+}
+
+// c04RetiredKeys: the operator's public-keys file (keys of the other instances, which this daemon trusts for tokens) with
+// a key that has been retired the way operators retire lines - commented out with '#', the comment character of the
+// authorized_keys format the file uses.  Either
+// the daemon refuses such a file at start-up, or it starts and then must not honour anything signed with the retired key.
+func c04RetiredKeys(rep *verifReport) {
+	retired := verifSigner("foreign_rsa2048")
+	line := strings.TrimSpace(verifSSHAuthorizedKey(retired.Public()))
+	variants := map[string]string{
+		"hash-space-key":        "# " + line + " retired 2024-01\n",
+		"hash-key":              "#" + line + "\n",
+		"comment-then-key":      "# keys of the other instances\n\n# " + line + "\n",
+		"label-hash-key":        "old-instance # " + line + "\n",
+	}
+	oidc := "openid_connect_idp:\n    clients:\n        - client_id: \"client-a\"\n          client_secret: \"secret-a\"\n          allowed_redirect_domains: [\"example.com\"]\n"
+	for name, raw := range variants {
+		env, err := verifNewEnv(verifStateOpts{Name: "c04-retired-" + name, Users: map[string]string{"alice": "alice-pw"}, AllowedCerts: []string{"password"},
+			AllowedWebUI: []string{"password"}, CLILifetime: "1h", PublicKeysFile: true, PublicKeysList: []string{"ca_rsa2048"}, PublicKeysRaw: raw, ExtraTop: oidc})
+		rep.Count("retired_key_deployments_probed", 1)
+		if err != nil {
+			rep.Eval("retired-key|" + name + "|refused-at-startup")
+			rep.Count("retired_key_file_refused_at_startup", 1)
+			continue
+		}
+		now := time.Now()
+		cookie := verifMint(verifSessionClaims("alice", verifBit["password"]|verifBit["U2F"], now.Add(-time.Minute), time.Hour), retired)
+		probes := []struct {
+			consumer string
+			q        verifReq
+		}{
+			{"cookie@profile", verifReq{Method: "GET", Path: "/profile/", Cookies: verifCk(cookie)}},
+			{"cookie@certgen", func() verifReq {
+				q := verifCertReq("alice", "x509", verifPKIXPEM(verifUserECKey().Public()), "1h", nil)
+				q.Cookies = verifCk(cookie)
+				return q
+			}()},
+			{"cookie@users", verifReq{Method: "GET", Path: "/api/v0/logout", Cookies: verifCk(cookie)}},
+		}
+		for _, p := range probes {
+			resp := env.Do(p.q.Build())
+			honoured := resp.Code == 200 && (p.consumer != "cookie@users")
+			if p.consumer == "cookie@certgen" {
+				honoured = len(verifSignedMaterial(resp)) > 0
+			}
+			rep.Eval(fmt.Sprintf("retired-key|%s|%s|honoured=%v", name, p.consumer, honoured))
+			if honoured {
+				rep.Violate("C04/honoured/retired-key/"+p.consumer+"/"+name, "a token signed with a key that is commented out in the public-keys file was honoured",
+					c04Case{Consumer: p.consumer, Artefact: "session", Mutation: "signed with the retired key (" + name + ")", Status: resp.Code, Honoured: true})
+			} else {
+				rep.Count("rejections", 1)
+			}
+		}
+	}
 }
